@@ -572,6 +572,10 @@ func (r *vfC13Run) doAttempt(real func(), iter *Iter, host *HostInfo) {
 	e := r.execLocked()
 	aid := r.iters[iter]
 	real()
+	if r.kindOf[host] == "okonce" {
+		// the node is reported down while the query is under way: a retry on the same host finds it gone
+		host.setState(NodeDown)
+	}
 	class := "ok"
 	if iter.err != nil {
 		class = r.classOfAid(aid, iter.err)
@@ -1149,7 +1153,7 @@ func (r *vfC13Run) begin(id int, mode string) vfC13Begin {
 
 func vfC13Free(id int, seed int64) (sum vfC13Summary, begin vfC13Begin, log []vfC13Ev) {
 	rng := rand.New(rand.NewSource(seed))
-	kinds := []string{"ok", "ok", "ok", "ok", "ok", "ok", "noconn", "nopool", "down"}
+	kinds := []string{"ok", "ok", "ok", "ok", "ok", "ok", "noconn", "nopool", "down", "okonce", "okonce"}
 	cfg := vfC13Cfg{K: rng.Intn(3), Idem: rng.Intn(4) != 0, Allow: []int{}, Hosts: []string{}}
 	nh := 1 + rng.Intn(5)
 	if rng.Intn(12) == 0 {
